@@ -48,14 +48,19 @@ use vpe4::{
 // ---------------------------------------------------------------------------------------------
 // cases
 
-/// Quick-tier cross-section: uni-STARK Fibonacci, uni-STARK with a preprocessed trace and a longer
-/// final polynomial / higher arity, batch with local+global lookups and preprocessed columns (cap
-/// height 1), and a circuit-table batch proof (with `BatchStarkProof` metadata).
+/// Both tiers sweep the whole catalogue (thorough with more fault kinds and values). This
+/// cross-section goes first, so that a slow machine loses breadth at the tail, never the core:
+/// uni-STARK Fibonacci, uni-STARK with a preprocessed trace and a longer final polynomial / higher
+/// arity, batch with local+global lookups and preprocessed columns (cap height 1), a circuit-table
+/// batch proof (with `BatchStarkProof` metadata), a hiding-PCS batch, a D = 5 circuit-table proof.
 const QUICK: &[&str] = &[
     "babybear_d4_p2w16/uni/fri/fib8/fri_testing",
     "babybear_d4_p2w16/uni/fri/mul_prep/fri_b1_a2_f1",
     "babybear_d4_p2w16/batch/fri/lookups_local_global/fri_testing_cap1",
     "babybear_d4_p2w16/batch/fri/circuit_tables_arith10_d1/fri_testing",
+    "babybear_d4_p2w16/batch/hiding_fri/lookups_local_global/fri_testing",
+    "koalabear_quintic_d5_p2w16d1/batch/fri/circuit_tables_arith10_d5/fri_testing",
+    "goldilocks_d2_p2w8/batch/fri/mixed3_prep_tall/fri_b2_a3_f2",
 ];
 
 const FVP_FIELDS: &[&str] = &["log_blowup", "log_final_poly_len", "commit_pow_bits", "query_pow_bits"];
@@ -173,6 +178,9 @@ enum Case {
     NoMmcs,
     /// fault of the `BatchStarkProof` metadata (circuit-table fixtures)
     Meta(TFault),
+    /// `--opt selftest=abort|hang`: not a fault of the repository but of the harness' own worker
+    /// (allocate 1 TiB / sleep forever) — demonstrates that a dying or hanging child is seen
+    SelfTest(String),
 }
 
 /// Integer fault relative to the honest value, without the values themselves: `-1`, `+1`, `=0`,
@@ -198,6 +206,7 @@ impl Case {
             Case::Meta(f) => json!({"t": "meta", "f": f.to_json()}),
             Case::Param { scope, field, value } => json!({"t": "param", "scope": scope.tag(), "field": field, "v": value}),
             Case::NoMmcs => json!({"t": "no_mmcs"}),
+            Case::SelfTest(k) => json!({"t": "selftest", "k": k}),
         }
     }
     fn from_json(v: &Value) -> Option<Case> {
@@ -210,6 +219,7 @@ impl Case {
                 value: v["v"].as_u64()?,
             },
             "no_mmcs" => Case::NoMmcs,
+            "selftest" => Case::SelfTest(v["k"].as_str()?.to_string()),
             _ => return None,
         })
     }
@@ -218,7 +228,7 @@ impl Case {
     fn needs_worker(&self) -> bool {
         match self {
             Case::Tree(f) | Case::Meta(f) => f.is_int(),
-            Case::Param { .. } | Case::NoMmcs => true,
+            Case::Param { .. } | Case::NoMmcs | Case::SelfTest(_) => true,
         }
     }
     /// Fault class: kind + path with indices abstracted, no values.
@@ -231,6 +241,7 @@ impl Case {
                 format!("param:{}:{}{}", scope.tag(), field, rel(old, *value))
             }
             Case::NoMmcs => "param:fvp_only:permutation_config=None".into(),
+            Case::SelfTest(k) => format!("selftest:{k}"),
         }
     }
     /// Coarse fault class used in violation keys: fault kind with pop/empty merged into `shorten`
@@ -266,6 +277,7 @@ impl Case {
             Case::Meta(f) => format!("metadata {} {}", f.to_json()["k"].as_str().unwrap_or(""), path_string(f.path())) + &f.to_json().get("v").map(|v| format!(" <- {v}")).unwrap_or_default(),
             Case::Param { scope, field, value } => format!("{} {} <- {}", scope.tag(), field, value),
             Case::NoMmcs => "FriVerifierParams.permutation_config <- None".into(),
+            Case::SelfTest(k) => format!("harness self-test `{k}`"),
         }
     }
 }
@@ -572,12 +584,31 @@ impl Judged {
     }
 }
 
-/// `None` = the fault does not apply to this object.
 fn judge(fx: &Fixture, case: &Case) -> Option<Judged> {
+    judge_with(fx, case, false, &mut || {})
+}
+
+/// `None` = the fault does not apply to this object. `skip_native`: the native verifier killed
+/// its process on this object before (seen by the parent of a worker), only the circuit side is
+/// run. `native_done` is called between the two halves.
+fn judge_with(fx: &Fixture, case: &Case, skip_native: bool, native_done: &mut dyn FnMut()) -> Option<Judged> {
+    let native_dead = || Verdict::Panic("native verifier killed its process (abort / no answer) @ child-process".to_string());
     match case {
+        Case::SelfTest(k) => {
+            if k == "abort" {
+                let v: Vec<u8> = vec![1u8; 1usize << 40];
+                std::hint::black_box(&v);
+            } else {
+                loop {
+                    std::thread::sleep(Duration::from_secs(1));
+                }
+            }
+            None
+        }
         Case::Tree(f) => {
             let t = f.apply(&fx.honest)?;
-            let n = fx.native_verify(&t);
+            let n = if skip_native { native_dead() } else { fx.native_verify(&t) };
+            native_done();
             if n.not_a_proof() {
                 return Some(classify(&n, &n, ""));
             }
@@ -607,10 +638,20 @@ fn judge(fx: &Fixture, case: &Case) -> Option<Judged> {
                     ov.fvp = Some(f);
                 }
                 Case::Meta(f) => ov.bsp_json = Some(f.apply(&fx.extra["bsp_json"])?),
-                Case::Tree(_) => unreachable!(),
+                Case::Tree(_) | Case::SelfTest(_) => unreachable!(),
             }
-            match fx.verify_with_override(&fx.honest, &ov) {
-                Ok((n, c, st)) => Some(classify(&n, &c, st)),
+            let n = if skip_native {
+                native_dead()
+            } else {
+                fx.native_verify_with_override(&fx.honest, &ov)
+                    .unwrap_or_else(|e| machinery_error(&format!("{}: parameter override failed: {e}", fx.name)))
+            };
+            native_done();
+            if n.not_a_proof() {
+                return Some(classify(&n, &n, ""));
+            }
+            match fx.circuit_verify_with_override(&fx.honest, &ov) {
+                Ok((c, st)) => Some(classify(&n, &c, st)),
                 Err(e) => machinery_error(&format!("{}: parameter override failed: {e}", fx.name)),
             }
         }
@@ -630,7 +671,8 @@ fn fnv(s: &str) -> u64 {
 }
 
 /// `c15 --worker <config>`: builds the fixture, prints `READY <hash of the honest tree>`, then for
-/// every JSON case line on stdin prints `START <i>` and `DONE <i> <json>`.
+/// every JSON case line on stdin prints `START <i>`, `NATIVE <i>` (native verifier returned) and
+/// `DONE <i> <json>`.
 fn worker_main(name: &str) -> ! {
     vpcore::install_quiet_panic_hook();
     let spec = vpe4::find_spec(name).unwrap_or_else(|| machinery_error(&format!("worker: unknown config {name}")));
@@ -642,11 +684,15 @@ fn worker_main(name: &str) -> ! {
     for line in stdin.lock().lines() {
         let Ok(line) = line else { break };
         let Some((idx, body)) = line.split_once(' ') else { continue };
-        let case = serde_json::from_str::<Value>(body).ok().and_then(|v| Case::from_json(&v));
-        let Some(case) = case else { machinery_error("worker: bad case line") };
+        let v = serde_json::from_str::<Value>(body).unwrap_or(Value::Null);
+        let Some(case) = Case::from_json(&v) else { machinery_error("worker: bad case line") };
+        let skip_native = v["skip_native"].as_bool().unwrap_or(false);
         println!("START {idx}");
         let _ = out.lock().flush();
-        let r = match judge(&fx, &case) {
+        let r = match judge_with(&fx, &case, skip_native, &mut || {
+            println!("NATIVE {idx}");
+            let _ = out.lock().flush();
+        }) {
             Some(j) => j.to_json(),
             None => Value::Null,
         };
@@ -667,6 +713,8 @@ struct WorkerCfg {
 fn run_in_worker(w: &WorkerCfg, name: &str, honest_hash: u64, cases: &[(usize, Case)], deadline: &dyn Fn() -> bool) -> Vec<(usize, Option<Judged>)> {
     let mut results: Vec<(usize, Option<Judged>)> = vec![];
     let mut pos = 0usize;
+    // cases whose NATIVE verifier killed the child: re-run with the native half skipped
+    let mut skip_native: Vec<bool> = vec![false; cases.len()];
     while pos < cases.len() {
         if deadline() {
             break;
@@ -707,10 +755,11 @@ fn run_in_worker(w: &WorkerCfg, name: &str, honest_hash: u64, cases: &[(usize, C
             Some(h) => machinery_error(&format!("worker for {name} proved a different honest object ({h})")),
             None => machinery_error(&format!("worker for {name} did not become ready")),
         }
-        let batch = &cases[pos..];
         let mut payload = String::new();
-        for (i, c) in batch {
-            payload.push_str(&format!("{i} {}\n", c.to_json()));
+        for (k, (i, c)) in cases.iter().enumerate().skip(pos) {
+            let mut j = c.to_json();
+            j["skip_native"] = json!(skip_native[k]);
+            payload.push_str(&format!("{i} {j}\n"));
         }
         // feed from a thread: a dying child must not block us on a full pipe
         let feeder = std::thread::spawn(move || {
@@ -718,6 +767,7 @@ fn run_in_worker(w: &WorkerCfg, name: &str, honest_hash: u64, cases: &[(usize, C
             drop(stdin);
         });
         let mut in_flight: Option<usize> = None;
+        let mut native_returned = false;
         let mut died: Option<String> = None;
         loop {
             if pos >= cases.len() {
@@ -727,6 +777,9 @@ fn run_in_worker(w: &WorkerCfg, name: &str, honest_hash: u64, cases: &[(usize, C
                 Ok(l) => {
                     if let Some(i) = l.strip_prefix("START ") {
                         in_flight = i.trim().parse().ok();
+                        native_returned = false;
+                    } else if l.starts_with("NATIVE ") {
+                        native_returned = true;
                     } else if let Some(rest) = l.strip_prefix("DONE ") {
                         let (i, body) = rest.split_once(' ').unwrap_or((rest, "null"));
                         let i: usize = i.parse().unwrap_or_else(|_| machinery_error("worker: bad DONE line"));
@@ -769,6 +822,10 @@ fn run_in_worker(w: &WorkerCfg, name: &str, honest_hash: u64, cases: &[(usize, C
         let _ = reader.join();
         if pos < cases.len() {
             match (died, in_flight) {
+                (Some(_), Some(i)) if i == cases[pos].0 && !native_returned && !skip_native[pos] => {
+                    // the native verifier died (not the subject): same case again, circuit side only
+                    skip_native[pos] = true;
+                }
                 (Some(how), Some(i)) if i == cases[pos].0 => {
                     results.push((i, Some(Judged::dead_worker(&how))));
                     pos += 1;
@@ -879,7 +936,7 @@ fn main() {
         .into_iter()
         .filter(|s| match &filter {
             Some(f) => s.name.contains(f.as_str()),
-            None => !ctx.quick() || QUICK.contains(&s.name.as_str()),
+            None => true,
         })
         .collect();
     // the quick cross-section first, so that a slow machine loses breadth at the tail
@@ -923,7 +980,10 @@ fn main() {
         // still meaningful there; clause (b) cannot fire.
         let honest_note = if hc.accepts() { "accepted by both".to_string() } else { format!("native accepts, circuit {} at `{hstage}` (C01's finding; clause (b) vacuous here)", hc.tag()) };
 
-        let cases = all_cases(&fx, !ctx.quick());
+        let mut cases = all_cases(&fx, !ctx.quick());
+        if let (Some(k), 0) = (ctx.opt("selftest"), configs_done) {
+            cases.push(Case::SelfTest(k.to_string()));
+        }
         planned_total += cases.len() as u64;
         let indexed: Vec<(usize, Case)> = cases.iter().cloned().enumerate().collect();
         let (wk, inproc): (Vec<_>, Vec<_>) = indexed.into_iter().partition(|(_, c)| c.needs_worker());
@@ -933,7 +993,7 @@ fn main() {
         let skipped = AtomicU64::new(0);
         let cfg_out = Histo::new();
 
-        let record = |case: &Case, j: Option<Judged>| {
+        let record = |idx: usize, case: &Case, j: Option<Judged>| {
             let Some(j) = j else {
                 na.fetch_add(1, Ordering::Relaxed);
                 return;
@@ -952,7 +1012,8 @@ fn main() {
             }
             let case_json = json!({"config": fx.name, "case": case.to_json(), "class": class, "judged": j.to_json()});
             match violation_key(&fx, case, &j) {
-                Some((key, what)) => report.violation(key, what, case_json.clone()),
+                // among the cases of one key keep the first configuration's first case (independent of thread timing)
+                Some((key, what)) => report.violation_sized(key, what, case_json.clone(), configs_done * 1_000_000 + idx),
                 None => {
                     if j.outcome == "ok+native_reject" {
                         *unjudged_param.lock().unwrap().entry(format!("{class} (native {})", j.native_tag)).or_default() += 1;
@@ -979,19 +1040,19 @@ fn main() {
                     sc.spawn(move || run_in_worker(w, &name, h, part, &|| ctx.out_of_time()))
                 })
                 .collect();
-            inproc.par_iter().for_each(|(_, case)| {
+            inproc.par_iter().for_each(|(idx, case)| {
                 if ctx.out_of_time() {
                     skipped.fetch_add(1, Ordering::Relaxed);
                     return;
                 }
-                record(case, judge(&fx, case));
+                record(*idx, case, judge(&fx, case));
             });
             let mut got = 0usize;
             for hdl in handles {
                 let rs = hdl.join().unwrap_or_else(|_| machinery_error("worker driver thread panicked"));
                 got += rs.len();
                 for (i, j) in rs {
-                    record(&cases[i], j);
+                    record(i, &cases[i], j);
                 }
             }
             skipped.fetch_add((wk.len() - got) as u64, Ordering::Relaxed);
